@@ -9,6 +9,7 @@ import (
 	"io"
 	"log"
 	"math/big"
+	"net/http"
 	"os"
 	"path/filepath"
 	"sort"
@@ -289,3 +290,5 @@ func dirDigest(dir string) string {
 	})
 	return fmt.Sprintf("%d:%x", n, h.Sum(nil)[:4])
 }
+
+type httpRequestAlias = http.Request
